@@ -249,7 +249,9 @@ Section Run.
     else [96].
 
   (* identity of the copy's fields with the original's and with the keyword values; mutable sharing *)
-  Definition obs_copy (C : chain) (st0 st : state) (r0 r : nat) (kw : list (name * value)) : list Z :=
+  (* `others`: the instances made earlier in this run other than the receiver (history: a copy must not hand out
+     objects that an earlier copy holds) *)
+  Definition obs_copy (C : chain) (st0 st : state) (r0 r : nat) (kw : list (name * value)) (others : list nat) : list Z :=
     [-5] ++ map (fun n => match getattr (s_heap st) r n, getattr (s_heap st0) r0 n with
                           | Some a, Some b => if value_eqb a b then 1 else 0 | _, _ => 2 end) (field_names C)
     ++ [-5] ++ map (fun n => match getattr (s_heap st) r n, lookup kw n with
@@ -262,7 +264,19 @@ Section Run.
             | Some a, Some b => Z.of_nat (List.length (filter (fun q => existsb (Nat.eqb q) a) b))
             | _, _ => 99
             end;
-        if zlist_eqb (show_fields (s_heap st0) n0 r0 (field_names C)) (show_fields (s_heap st) n0 r0 (field_names C)) then 1 else 0].
+        if zlist_eqb (show_fields (s_heap st0) n0 r0 (field_names C)) (show_fields (s_heap st) n0 r0 (field_names C)) then 1 else 0;
+        let unrep := filter (fun n => negb (is_some (lookup kw n))) (map f_name (filter f_init (dc_fields C))) in
+        let mine := reach_mutable (s_heap st)
+                      (flat_map (fun n => match getattr (s_heap st) r n with Some v => [v] | None => [] end) unrep) in
+        let theirs := reach_mutable (s_heap st)
+                        (flat_map (fun q => match nth_error (s_heap st) q with Some o => children o | None => [] end) others) in
+        match theirs, mine with
+        | Some a, Some b => Z.of_nat (List.length (filter (fun q => existsb (Nat.eqb q) a) b))
+        | _, _ => 99
+        end].
+
+  Definition other_regs (R : regs) (r0 : nat) : list nat :=
+    flat_map (fun x => match x with Some (_, q) => if Nat.eqb q r0 then [] else [q] | None => [] end) R.
 
   Definition step (o : op) (R : regs) (st : state) : list Z * regs * state :=
     let j0 := List.length (s_journal st) in
@@ -289,7 +303,7 @@ Section Run.
         | (st', Ok r) =>
           ([0] ++ journal_since j0 st' ++ [-6]
            ++ cand_verdicts C (match o with OCopy _ _ => ByCopy r0 kw | _ => ByDeep r0 kw end) st
-           ++ [-3] ++ obs_instance C st' r ++ obs_copy C st st' r0 r kw, R ++ [Some (c, r)], st')
+           ++ [-3] ++ obs_instance C st' r ++ obs_copy C st st' r0 r kw (other_regs R r0), R ++ [Some (c, r)], st')
         | (st', Raise e) =>
           ([enc_exn e] ++ journal_since j0 st' ++ [-6]
            ++ cand_verdicts C (match o with OCopy _ _ => ByCopy r0 kw | _ => ByDeep r0 kw end) st ++ [-3;
